@@ -29,11 +29,14 @@ def run(tier, seed):
     if tier == "quick":
         heavy = {"ccproof": 24, "pubkey": 40, "seckey": 40, "qstack": 60, "qssec": 60, "sig": 40, "enc": 40}
         bytype = {}
+        binary = {x["type"] for x in samples if x.get("binary")}
         for c in cases:
             bytype.setdefault(c["type"], []).append(c)
         cases = []
         for t, cs in sorted(bytype.items()):
             cap = heavy.get(t, 140)
+            if t in binary:
+                cap = len(cs)          # parsing binary OpenPGP data costs milliseconds: the whole enumeration
             step = max(1, len(cs) // cap)
             cases += cs[(seed % step)::step]
     nchunks = 16
